@@ -502,6 +502,10 @@ def query_trees(ctx, env, G, ds, dnames):
                         out[dn] = _value(q.statement, ds[dn])
                     except sa_exc.SQLAlchemyError as e:
                         out[dn] = ("EXC", type(e).__name__)
+                    except Exception as e:  # Query.statement itself failed: still a value, must be reproducible
+                        out[dn] = ("EXC-internal", type(e).__name__)
+                        ctx.count("query_statement_internal_errors")
+                        ctx.seen("query_statement_internal_errors", type(e).__name__)
                 return out
 
             def add(q, parent, opname):
